@@ -787,6 +787,64 @@ func lcConnCtx(obj any) context.Context {
 	return nil
 }
 
+// lcCtxMutex returns the mutex inside a context created by context.WithCancel*: the field of type sync.Mutex of the
+// struct the context value points to (found by type). nil if the context is not of that shape.
+func lcCtxMutex(cctx context.Context) *sync.Mutex {
+	v := reflect.ValueOf(cctx)
+	if v.Kind() != reflect.Pointer || v.IsNil() || v.Elem().Kind() != reflect.Struct {
+		return nil
+	}
+	s := v.Elem()
+	mt := reflect.TypeOf(sync.Mutex{})
+	for i := 0; i < s.NumField(); i++ {
+		if f := s.Field(i); f.Type() == mt && f.CanAddr() {
+			return (*sync.Mutex)(unsafe.Pointer(f.UnsafeAddr()))
+		}
+	}
+	return nil
+}
+
+// the state word of a sync.Mutex (its first 32 bits): bit 0 locked, bit 1 "a contender is awake", bit 2 starving,
+// the rest the number of parked waiters. Read only, to see WHO is waiting; if the layout were different the
+// scenario would merely not open its window (counter win.window).
+func lcMutexState(mu *sync.Mutex) (woken bool, waiters int) {
+	st := atomic.LoadInt32((*int32)(unsafe.Pointer(mu)))
+	return st&2 != 0, int(st >> 3)
+}
+
+// lcHoldCtx takes the context's mutex (delaying a cancel() of that context, nothing else) and gives it up at the
+// moment a SECOND contender shows up behind the first, parked one — the first being the goroutine that wants to
+// cancel, the second a goroutine that wants to read Err(): the reader then gets the mutex before the canceller.
+// It returns once the mutex is held; `outcome` receives what happened: "second" (given up for the second
+// contender), "late" (the second contender was already parked: it will run after the canceller), "nobody" (time
+// limit: only the canceller, or nobody, came).
+func lcHoldCtx(mu *sync.Mutex, limit time.Duration, outcome chan<- string) {
+	held := make(chan struct{})
+	go func() {
+		mu.Lock()
+		close(held)
+		deadline := time.Now().Add(limit)
+		res := "nobody"
+		for k := 0; ; k++ {
+			woken, waiters := lcMutexState(mu)
+			if waiters >= 2 {
+				res = "late"
+				break
+			}
+			if waiters == 1 && woken {
+				res = "second"
+				break
+			}
+			if k&255 == 0 && time.Now().After(deadline) {
+				break
+			}
+		}
+		mu.Unlock()
+		outcome <- res
+	}()
+	<-held
+}
+
 // lcHammer starts n goroutines polling cctx.Err() until stop is closed (or the time limit); returns when they run.
 func lcHammer(cctx context.Context, n int, stop <-chan struct{}, limit time.Duration) {
 	var started sync.WaitGroup
